@@ -138,6 +138,27 @@ let run_lyds ty place every ops =
                                first := false; Some st')) (Some !s) xs in
               match r with None -> raise Null_deref | Some s' -> s := s'; "+"
             end
+        | 'g' ->
+            (* lyd_merge_tree / lyd_merge_siblings of the source list; 1 = LYD_MERGE_DESTRUCT: the source instances
+               themselves move, the pool holds the red-black nodes of the source tree; 0: duplicates (new identities for
+               those that are inserted, in source order) *)
+            if !src.sibs = [] then "x"
+            else begin
+              let r =
+                if a = 1 then begin
+                  let pool = match !src.rbt with Some (Node (_, _, _, _)) -> List.length !src.sibs | _ -> 0 in
+                  let r = lyd_merge_list elt_cmp elt_ideq false (nat_of_int pool) !s !src.sibs in
+                  src := { sibs = []; rbt = None };
+                  r
+                end else begin
+                  let keys = ref (List.map (fun (k, _) -> int_of_z k) !s.sibs) in
+                  let xs = List.filter_map (fun (k, _) ->
+                    if List.mem (int_of_z k) !keys then None
+                    else begin keys := int_of_z k :: !keys; let x = (k, n_of_int !next) in incr next; Some x end) !src.sibs in
+                  lyd_merge_list elt_cmp elt_ideq false O !s xs
+                end in
+              match r with None -> raise Null_deref | Some s' -> s := s'; "+"
+            end
         | _ -> "?" in
       Buffer.add_string out res;
       Buffer.add_char out '/';
